@@ -571,6 +571,11 @@ def make(env, profile, res, part):
                 continue
             res.count("applications")
             label, fail = verdict(name, f)
+            if fail is None and part.get("fresh_env"):
+                # the same case from its serialised form in an environment of its own: counters of
+                # generated names start from zero there (they never do in the shard's shared environment)
+                res.count("fresh_env_runs")
+                _, fail = confirm(name, termio.dump(f), part.get("dom"), part.get("qdoms"), symbol_order(f))
             res.outcome("%s:%s" % (name, label))
             if label.startswith("rewritten") or label in ("value", "shape", "symbol"):
                 nontrivial = True
@@ -714,8 +719,12 @@ def _atom(p, name):
     """the atom alphabet: Boolean symbols, LIA / LRA / BV relations, UF predicates, a theory
     ITE inside a relation, a quantifier inside a predicate argument, other theories"""
     m = p.m
-    if name in ("a", "b", "c"):
+    if name in ("a", "b", "c", "FV0", "FV1", "FV2"):     # FVn: user symbols named like the library's fresh ones
         return p.sym(name, BOOL)
+    if name in ("Ea.a<->FV0", "Aa.a|FV1"):
+        a = p.sym("a", BOOL)
+        return (m.Exists([a], m.Iff(a, p.sym("FV0", BOOL))) if name.startswith("E")
+                else m.ForAll([a], m.Or(a, p.sym("FV1", BOOL))))
     if name == "T":
         return m.TRUE()
     if name == "F":
@@ -950,6 +959,8 @@ def parts(ctx):
       _names("not", "or", "implies", "forall_b", "exists_a", "forall_a"), max_new=1)
     A("q-shared-d2", skeleton(("a", "Eb.a&b", "Ab.a|b") + (() if q else ("Ea.a&b", "b")), binders=("a", "b"),
                               ops=("not", "and", "or", "iff")), 2, 16, max_new=1 if q else None)
+    A("q-freshnames-d2", skeleton(("a", "FV0", "FV1", "Ea.a<->FV0", "Aa.a|FV1"), binders=("a",),
+                                  ops=("not", "and", "or", "iff")), 2, 16, max_new=1, fresh_env=True)
     A("q-bv-d2", skeleton(("a", "u=v", "w<2"), binders=("u", "uv", "w", "au"), ops=("not",) + _BIN), 2,
       32, max_new=1 if q else None)
     A("q-bv-d3", skeleton(("u<v", "w=z"), binders=("u", "v", "w", "uw"), ops=("not",) + _BIN), 3,
